@@ -25,13 +25,13 @@ def wf_txout(t):
     return 0 <= t.coin_value and t.coin_value < 2 ** 64
 
 
-@spec
+@spec(opaque=True, args=[K_TXIN, 'bool'], ret='bytes')
 def ser_txin(t, blank):
     """outpoint (32-byte hash, LE32 index), var-string script (empty when blanked), LE32 sequence"""
     return t.previous_hash + le(t.previous_index, 4) + varstr(b"" if blank else t.script) + le(t.sequence, 4)
 
 
-@spec
+@spec(opaque=True, args=[K_TXOUT], ret='bytes')
 def ser_txout(t):
     return le(t.coin_value, 8) + varstr(t.script)
 
@@ -71,7 +71,7 @@ def ser_items_upto(ws, i):
     return ser_items_upto(ws, i - 1) + varstr(ws[i - 1])
 
 
-@spec
+@spec(opaque=True, args=[K_WIT], ret='bytes')
 def ser_witness(ws):
     return compact_size(len(ws)) + ser_items_upto(ws, len(ws))
 
